@@ -68,7 +68,7 @@ def _run_chunk(job):
     import verif.driver
     wd = par.workdir()
     files = []
-    for w in (0, 1):
+    for w in (0, 1, 2):
         p = os.path.join(wd, "%s_%d.txt" % (kind, w))
         if not os.path.exists(p):
             mat.write_text(p, dataset(kind, w))
@@ -76,7 +76,7 @@ def _run_chunk(job):
     out = []
     signal.signal(signal.SIGALRM, _alarm)
     for c in combos:
-        argv = ["verif"] + files + list(c["argv"])
+        argv = ["verif"] + (files if c.get("v") == "three-files" else files[:2]) + list(c["argv"])
         img = os.path.join(wd, "out.png")
         if c["t"] not in ("text", "csv"):
             if os.path.exists(img):
@@ -150,9 +150,9 @@ def run(ctx):
                     ctx.note_drift("gate model predicted '%s' but `%s` on dataset '%s' gave '%s'" % (c["predict"], " ".join(c["argv"]), kind, cls))
                 continue
             crashes.setdefault(cls, []).append([c["m"], c["x"], c["t"], c["v"], kind])
-            ctx.diverge(cls, {"kind": "combo", "argv": c["argv"], "dataset": kind, "outcome": outcome},
+            ctx.diverge(cls, {"kind": "combo", "argv": c["argv"], "dataset": kind, "outcome": outcome, "v": c.get("v")},
                         as_implemented=bool(KNOWN_CRASHES.get(cls, lambda c, k: False)(c, kind)),
-                        detail="`verif A B %s` on dataset '%s' -> %s" % (" ".join(c["argv"]), kind, outcome))
+                        detail="`verif A B%s %s` on dataset '%s' -> %s" % (" C" if c.get("v") == "three-files" else "", " ".join(c["argv"]), kind, outcome))
     ctx.extra["outcomes"] = counts
     ctx.extra["crash_combinations"] = {k: v[:300] for k, v in crashes.items()}
     ctx.sample({"argv": combos[0]["argv"], "dataset": "full"})
